@@ -156,6 +156,13 @@ func (ip *Interp) event(e Event) *Event {
 type activation struct {
 	fn  *ssa.Function
 	env map[ssa.Value]Val
+	// loads remembers, for values produced by a load, the heap cell they came from
+	loads map[ssa.Value]loadOrigin
+}
+
+type loadOrigin struct {
+	key string
+	v   Val
 }
 
 type edgeIn struct {
@@ -227,7 +234,7 @@ func (ip *Interp) Call(fn *ssa.Function, args []Val, bind []Val, st *State) (res
 	savedPos := ip.curPos
 	defer func() { ip.stack = ip.stack[:len(ip.stack)-1]; ip.curPos = savedPos }()
 
-	act := &activation{fn: fn, env: map[ssa.Value]Val{}}
+	act := &activation{fn: fn, env: map[ssa.Value]Val{}, loads: map[ssa.Value]loadOrigin{}}
 	for i, p := range fn.Params {
 		if i < len(args) {
 			act.env[p] = args[i]
@@ -436,14 +443,24 @@ func (ip *Interp) refineEdge(act *activation, s *State, cond ssa.Value, cb *Bool
 	x, xok := c.X.(*Int)
 	y, yok := c.Y.(*Int)
 	if xok && yok {
+		// a value that was loaded from a heap cell which still holds that very value
+		// narrows the cell as well (the cell's content is what was tested)
+		narrow := func(v ssa.Value, r *Int) {
+			s.refine[v] = r
+			if lo, ok := act.loads[v]; ok {
+				if cur, ok := s.Heap.get(lo.key); ok && cur == lo.v {
+					s.Heap.set(lo.key, r)
+				}
+			}
+		}
 		if xs, ok := c.XS.(ssa.Value); ok {
 			if _, isConst := xs.(*ssa.Const); !isConst {
-				s.refine[xs] = ip.Ops.RefineCmp(c.Op, x, y, outcome, c.Sgn)
+				narrow(xs, ip.Ops.RefineCmp(c.Op, x, y, outcome, c.Sgn))
 			}
 		}
 		if ys, ok := c.YS.(ssa.Value); ok {
 			if _, isConst := ys.(*ssa.Const); !isConst {
-				s.refine[ys] = ip.Ops.RefineCmp(flipOp(c.Op), y, x, outcome, c.Sgn)
+				narrow(ys, ip.Ops.RefineCmp(flipOp(c.Op), y, x, outcome, c.Sgn))
 			}
 		}
 	}
@@ -928,7 +945,14 @@ func (ip *Interp) unop(act *activation, st *State, t *ssa.UnOp) Val {
 			ip.Imprecise("load through non-pointer " + t.X.Name())
 			return ip.topOf(t.Type(), "load")
 		}
-		return ip.Load(st, p, t.Type())
+		v := ip.Load(st, p, t.Type())
+		if _, isInt := v.(*Int); isInt && p.Obj != nil && !hasDyn(p.Path) {
+			k := locKey(p.Obj, p.Path)
+			if cur, ok := st.Heap.get(k); ok && cur == v {
+				act.loads[t] = loadOrigin{k, v}
+			}
+		}
+		return v
 	case token.NOT:
 		if b, ok := x.(*Bool); ok {
 			r := *b
